@@ -130,6 +130,20 @@ def run(ctx):
     run_cases(m, cases, ctx)
     streams.append(m)
 
+    # limits beyond the 247 bytes of E1381 (LIS01-A2 allows much larger frames) with records of several hundred bytes
+    b2 = Stream("beyond-247")
+    cases = []
+    for _ in range(1500 if ctx.thorough else 200):
+        recs = []
+        for _k in range(r.choice([1, 2, 3])):
+            rec = codecio.no_framing(codecio.canonical_record(r, "latin-1", r.choice([2, 3])))
+            rec.append("".join(r.choice("abcXYZ019 .-") for _ in range(r.choice([100, 250, 300, 600]))))
+            recs.append(rec)
+        cases.append((recs, r.choice([247, 248, 256, 300, 400, 1000, 5000]), r.randrange(0, 17)))
+    run_cases(b2, cases, ctx)
+    run_cases(b2, cases[:len(cases) // 3], ctx, kind="ienc")
+    streams.append(b2)
+
     it = Stream("iter_encode")
     cases = []
     for _ in range(4000 if ctx.thorough else 600):
